@@ -120,6 +120,7 @@ func checkC17(p *Program, r *Result) {
 		"and the initial options enable CRCs, override the library string and skip every optional part; (C17.b) every record type and field name that occurs in the input part of the vectors has a handler that stores into the field of the same name; " +
 		"(C17.c) for each record kind the read tool emits, the snake_cased exported fields of the Go struct it marshals (minus the tool's exclusions) are exactly the field names the vectors list for that type, and the type names agree; " +
 		"(C17.d) the writer emits summary groups in an order consistent with every expectation vector; " +
+		"(C17.o) the bytes Lexer.Next returns are a slice of the caller's buffer or freshly allocated (the read tool calls Next(nil) and keeps what it parsed from the result); " +
 		"(C17.e) the writer/parser rules that the expected offsets, lengths, statistics and padded records depend on (C05 layout and pointers, C08 counters, C11 parser tolerance) hold."
 	r.NotDecided = []string{"byte equality of the produced files and of the printed record streams (run-time)", "CRC values listed in the expectations"}
 	r.rule("C17.a", "feature -> writer option table is total and correct", 10)
@@ -145,6 +146,8 @@ func checkC17(p *Program, r *Result) {
 	gr := newGoLayouts(p, pkgReadC)
 	checkOutputNames(p, r, gr, vf)
 	checkSummaryOrder(p, r, vf)
+	r.rule("C17.o", "token bytes returned by Lexer.Next are the caller's or fresh (the read tool keeps records parsed from Next(nil))", 1)
+	checkLexerTokenOwnership(p, r, "C17.o")
 
 	// ---- e
 	lf, err := gatherLayouts(p)
